@@ -1,0 +1,33 @@
+// Verification hooks for Cadence. This module is only compiled when the crate
+// is built with `--cfg cadence_verif` and is not part of the public API.
+//
+// It provides named "points" that the library passes through at a few places
+// between two critical sections. By default a point does nothing. A test
+// harness may install a handler that is invoked, on the thread passing
+// through the point, with the name of the point: the handler may record the
+// event or block the thread to force a particular interleaving.
+
+use std::sync::{Arc, RwLock};
+
+/// Callback invoked with the name of each point passed through.
+pub type PointHandler = Arc<dyn Fn(&'static str) + Send + Sync + 'static>;
+
+static HANDLER: RwLock<Option<PointHandler>> = RwLock::new(None);
+
+/// Install (or remove, with `None`) the handler called for every point.
+pub fn set_point_handler(handler: Option<PointHandler>) {
+    let mut guard = HANDLER.write().unwrap_or_else(|e| e.into_inner());
+    *guard = handler;
+}
+
+/// Pass through the named point, invoking the installed handler if any.
+pub fn point(name: &'static str) {
+    let handler = {
+        let guard = HANDLER.read().unwrap_or_else(|e| e.into_inner());
+        guard.clone()
+    };
+
+    if let Some(handler) = handler {
+        handler(name);
+    }
+}
